@@ -171,15 +171,26 @@ def render_ts(rng, spec, out: Lines, js=False):
 
 def render_rs(rng, spec, out: Lines):
     start = len(out.lines)
-    out.code("pub struct %s {" % spec["name"])
+    # a struct with type or lifetime parameters is still a struct with impl blocks; the methods may be spread over several impl blocks
+    form = rng.choice(["plain", "plain", "generic", "lifetime"])
+    params, field = {"plain": ("", None), "generic": ("<T>", "    extra: T,"), "lifetime": ("<'a>", "    label: &'a str,")}[form]
+    out.code("pub struct %s%s {" % (spec["name"], params))
     header_line = len(out.lines)
     out.code("    base: i64,")
+    if field:
+        out.code(field)
     out.code("}")
     out.blank()
-    out.code("impl %s {" % spec["name"])
+    impl_head = "impl%s %s%s {" % (params, spec["name"], params)
+    out.code(impl_head)
+    split_at = rng.randint(1, len(spec["members"])) if len(spec["members"]) > 1 and rng.random() < 0.4 else None
     n = 0
     for kind in spec["members"]:
         n += 1
+        if split_at is not None and n == split_at + 1:
+            out.code("}")
+            out.blank()
+            out.code(impl_head)
         if spec["noise"] and rng.random() < 0.5:
             out.blank()
         if spec["noise"] and rng.random() < 0.3:
@@ -202,7 +213,7 @@ def render_rs(rng, spec, out: Lines):
     out.code("}")
     loc = sum(1 for k in out.kinds[start:] if k == "code")
     m = sum(1 for k in spec["members"] if k in ("public", "async", "static", "classmethod"))
-    return {"name": spec["name"], "line": header_line, "methods": m, "loc": loc, "keyword": spec["keyword"],
+    return {"name": spec["name"], "line": header_line, "form": form, "methods": m, "loc": loc, "keyword": spec["keyword"],
             "has_noise": any(k != "code" for k in out.kinds[start:]) }
 
 
